@@ -1,6 +1,7 @@
 (* C13 - a small array-heap model (buffers, contiguous 1-d views, allocation, in-place update) and, on it,
    the model of  quara/objects/mprocess.py: convert_var_to_hss  and
-   MProcess.calc_proj_eq_constraint_with_var  (definitions only).
+   MProcess.calc_proj_eq_constraint_with_var  (definitions only; the latter in two versions: as repaired by
+   fixes/mprocess-proj-eq-var-mutates-argument.diff - the one compared with the code - and as coded before).
 
    A numpy array that owns its data is a buffer; slicing / reshape of a contiguous array gives a view
    (same buffer, offset, length); np.copy / np.insert / np.hstack / np.reshape(list) allocate; "a -= c"
@@ -61,29 +62,47 @@ Definition dummy : arr := {| a_buf := 0; a_off := 0; a_len := 0 |}.
 (* flat read of a list of equally sized arrays *)
 Definition rd_list (h : heap) (l : list arr) (hs : nat) (i : nat) : F := rd h (nth (i / hs) l dummy) (i mod hs).
 
-(* MProcess.calc_proj_eq_constraint_with_var(c_sys, var, on_para_eq_constraint) *)
+(* the body of MProcess.calc_proj_eq_constraint_with_var after the HS arrays have been obtained:
+   sum of the first rows, in-place update of every first row, re-assembly of the variable vector *)
+Definition proj_eq_core (h1 : heap) (d2 : nat) (on_para : bool) (hss : list arr) : heap * arr :=
+  let hs := (d2 * d2)%nat in
+  let n := length hss in
+  let vec := fun j => fold_left (fun acc a => acc + rd h1 a j) hss 0 - e0 j in     (* vec += hs[0]; vec[0] -= 1 *)
+  let c := fun j => vec j / fnat n in
+  let h2 := fold_left (fun hh a => isub hh (view a 0 d2) c) hss h1 in             (* hs[0] -= vec / len(hss) *)
+  if on_para then
+    (* convert_hss_to_var: every hs flattened, the last one without its first row; np.hstack allocates *)
+    alloc h2 (n * hs - d2)
+          (fun i => if Nat.ltb i ((n - 1) * hs) then rd_list h2 hss hs i else rd_list h2 hss hs (i + d2))
+  else
+    (* np.reshape(list_of_arrays, -1): builds a new array *)
+    alloc h2 (n * hs) (rd_list h2 hss hs).
+
+(* copy.deepcopy(list of arrays): every element is copied into a buffer of its own *)
+Fixpoint copy_all (h : heap) (l : list arr) : heap * list arr :=
+  match l with
+  | [] => (h, [])
+  | a :: t => let h1 := fst (alloc h (a_len a) (rd h a)) in
+              let a' := snd (alloc h (a_len a) (rd h a)) in
+              (fst (copy_all h1 t), a' :: snd (copy_all h1 t))
+  end.
+
+(* MProcess.calc_proj_eq_constraint_with_var(c_sys, var, on_para_eq_constraint)
+   AS CODED BEFORE fix "mprocess-proj-eq-var-mutates-argument": the in-place update goes through the
+   arrays returned by convert_var_to_hss, which are views of var when on_para_eq_constraint = False *)
 Definition proj_eq_with_var (h : heap) (d2 : nat) (on_para : bool) (var : arr) : option (heap * arr) :=
   match convert_var_to_hss h d2 on_para var with
   | None => None
-  | Some (h1, hss) =>
-      let hs := (d2 * d2)%nat in
-      let n := length hss in
-      let vec := fun j => fold_left (fun acc a => acc + rd h1 a j) hss 0 - e0 j in     (* vec += hs[0]; vec[0] -= 1 *)
-      let c := fun j => vec j / fnat n in
-      let h2 := fold_left (fun hh a => isub hh (view a 0 d2) c) hss h1 in             (* hs[0] -= vec / len(hss) *)
-      if on_para then
-        (* convert_hss_to_var: every hs flattened, the last one without its first row; np.hstack allocates *)
-        Some (alloc h2 (n * hs - d2)
-                (fun i => if Nat.ltb i ((n - 1) * hs) then rd_list h2 hss hs i else rd_list h2 hss hs (i + d2)))
-      else
-        (* np.reshape(list_of_arrays, -1): builds a new array *)
-        Some (alloc h2 (n * hs) (rd_list h2 hss hs))
+  | Some (h1, hss) => Some (proj_eq_core h1 d2 on_para hss)
   end.
 
-(* the proposed fix: "vector = var.copy()" in the on_para_eq_constraint=False branch of convert_var_to_hss *)
+(* ... and as repaired (this is the model the harness compares with the implementation):
+   hss = copy.deepcopy(convert_var_to_hss(...)), the in-place update works on the copies *)
 Definition proj_eq_with_var_fixed (h : heap) (d2 : nat) (on_para : bool) (var : arr) : option (heap * arr) :=
-  if on_para then proj_eq_with_var h d2 true var
-  else let '(h1, vcopy) := alloc h (a_len var) (rd h var) in proj_eq_with_var h1 d2 false vcopy.
+  match convert_var_to_hss h d2 on_para var with
+  | None => None
+  | Some (h1, hss) => Some (proj_eq_core (fst (copy_all h1 hss)) d2 on_para (snd (copy_all h1 hss)))
+  end.
 
 (* an array is "well placed": its buffer exists *)
 Definition live (h : heap) (a : arr) : Prop := (a_buf a < h_next h)%nat.
